@@ -30,13 +30,38 @@ RULE = ("cases = every invocation shape (captures 0..4 in every &/&mut pattern a
         "trace; non-trivial = instance with at least one captured variable (the capture wiring is exercised). In addition the wiring "
         "(parameter order of `_lambda_name_`, tail of every recursive call, closure call) of every instance's real expansion is "
         "compared with the Lean model's prediction. The thorough tier adds a sample beyond the stated bound: every pattern of 5 and 6 "
-        "captures with 2 and 6 arguments (384 shapes, one body each).")
+        "captures with 2 and 6 arguments (384 shapes, one body each). "
+        "NAME RESOLUTION / HYGIENE instances (quick 122, thorough 1300; tools/c20_gen.py hygiene_instances): the identifier given to rec_lambda! as "
+        "the recursion's name equals another name the same program uses under its ordinary meaning - a free fn the body calls (`tr`, `mix1`; for "
+        "each such name also the shape whose inner fn has exactly the free fn's signature, so that a mis-resolved call still type-checks and shows "
+        "as a difference in behaviour), an imported std fn (`min`), prelude functions/constructors/types/traits (`drop`, `Some`, `Ok`, `Box`, `Vec`, "
+        "`String`, `Default`, `Into`, `Clone`; constructors also used as patterns), a type alias, a module, a const, a static, a tuple-struct "
+        "constructor, std macros used around the closure (`format`, `vec`), `rec_lambda` itself, method names, locals of the enclosing fn (`f` = the "
+        "variable bound to the closure, `out`) and of the body (`sh`, `x`, `a0v`), a raw identifier (`r#loop`), a loop label, each of its own captures "
+        "(`c<j>`, shared and mutable, every position) and arguments (`a0`, last); NESTED rec_lambda! (a second recursive closure built, called twice "
+        "with the first result fed back, and dropped inside the body before the outer recursive calls; same name as the outer one / another / a name "
+        "clashing with a capture, argument, helper; one shape gives the two hidden fns the same signature); TWO LIVE closures in one scope used "
+        "interleaved, sharing the shared captures, under the same or different names, with the other call syntax; a recursive call nested in an argument "
+        "expression of another one, and a call site inside an ordinary closure of the body; HOSTILE SCOPE (the other direction): the macro invoked by "
+        "absolute path `::rlib_lambda::rec_lambda!` inside a block that shadows the prelude (types, constructors, functions, traits), `std`/`core`/"
+        "`alloc`/`rlib_lambda` as modules, 24 std macros and the crate's own macro names. In all instances a closure without a mutable capture is bound "
+        "without `mut` (must be `Fn`), copied (must be `Copy`; both copies used) and called once through `&f`; one with a mutable capture once through `&mut f`. "
+        "For every instance whose expansion is read, the hidden fn's REAL name goes into the Lean name-resolution model (driver line `names …`) "
+        "together with the value names and `let`s of the body: generated and explicit resolution must agree; plain instances must expand to exactly "
+        "one item (the hidden fn).")
 ASSUMPTIONS = [
     "rustc's macro matcher (fragment parsers, follow sets, the `$dol` trick, hygiene), type checker and borrow checker are not modelled: "
     "that a shape compiles is established by compiling it, for the generated shapes only",
     "the Lean model of the three token munchers and of the local macro is hand-written from the macro source; it is tied to the code by "
     "comparing its predicted wiring with `cargo +nightly rustc -- -Zunpretty=expanded` of the generated programs on every run",
-    "the oracle of the behavioural comparison is a hand-written explicit recursive fn generated next to each rec_lambda! instance",
+    "the oracle of the behavioural comparison is a hand-written explicit recursive fn generated next to each rec_lambda! instance "
+    "(for nested / second live closures: explicit fns `ngo` / `go2` written the same way); it is the only oracle for the name-resolution instances",
+    "name resolution: Rust's `macro_rules!` hygiene covers locals and labels only, so the property can hold only for programs that do not themselves "
+    "use the (fixed) identifier of the hidden inner fn as a value, and whose nested inner closure does not call the OUTER recursion's macro - both "
+    "fail on the unchanged rlib (docs/notes/C20.md, 'Findings on rlib'), are NOT generated, and are outside the hypotheses of names_resolve_as_written",
+    "the Lean name-resolution model (resolveG/resolveCallG/resolveE: scopes = body lets, fn parameters, the block's hidden fn, enclosing scope; tokens of "
+    "the local macro resolved at its definition) is a hand-written abstraction of rustc's resolver; it is tied to the code only through the hidden fn's "
+    "name and the parameter list read from -Zunpretty=expanded",
 ]
 TRUSTED_EXTRA = ["tools/c20_gen.py (program generator, reader of compiler diagnostics and of the expanded source)",
                  "cargo +nightly -Zunpretty=expanded pretty printer"]
@@ -50,9 +75,13 @@ MANIFEST = {
              "reversed, then mutable reversed) containing every capture exactly once with its declared mutability (wiring_consistent); "
              "positional binding gives every captured name back to that very variable (rebinds_self); for every abstract body (interaction "
              "tree reading names, writing mutable captures, calling itself in either call syntax), fuel, arguments and store the generated closure and the explicit "
-             "recursion return the same value and final store (generated_eq_explicit). PARTIAL: rustc itself is not modelled; compilation "
-             "and behaviour are checked on generated programs (thorough tier: all 496 shapes x 4 bodies + 384 larger shapes; quick tier: 160 shapes, 496 "
-             "instances), and the model's wiring is compared with the real expansion of every instance."),
+             "recursion return the same value and final store (generated_eq_explicit); every identifier of the body other than the hidden fn's "
+             "fixed name denotes in the generated code what it denotes in the explicit recursion, independently of the recursion's name, which names "
+             "a macro only (names_resolve_as_written), and the callee and appended names of a recursive call resolve to the hidden fn and its own parameters "
+             "whatever the body declares, provided no argument/capture is called like the hidden fn (call_resolves). PARTIAL: rustc itself is not "
+             "modelled; compilation and behaviour are checked on generated programs (thorough tier: all 496 shapes x 4 bodies + 384 larger shapes + 1300 "
+             "name-resolution instances = 3668; quick tier: 160 shapes, 496 instances + 122 name-resolution instances = 618), and the model's wiring "
+             "and name resolution are compared with the real expansion of every instance (hidden fn's name, parameters, items declared)."),
     "note": ("Proof (partial). Proved: the macro wiring for unboundedly many captures/arguments and generated = explicit recursion in a small "
              "semantics of frames and references. Tested, not proved (named residue): rustc's macro matcher, type checker, borrow checker - "
              "every generated shape is compiled and run against a hand-written recursion (<= 4 captures, <= 4 arguments). Trusted: Lean kernel, "
@@ -143,7 +172,13 @@ def extra(ctx):
     # quick: + every pattern of 3 and 4 captures with a reduced cross product; thorough: + 5 and 6 captures, up to 6 arguments
     beyond = G.beyond_shapes(len(shapes)) if tier == "thorough" else G.quick_wide_shapes(len(shapes))
     instances += [(s, s.sid % G.TEMPLATES) for s in beyond]
-    by_sid = {s.sid: s for s in shapes + beyond}
+    # name resolution / hygiene: the recursion's name equals another name the program uses (free fn, prelude name, type, module,
+    # const, capture, argument, local), nested rec_lambda!, two live closures used interleaved
+    hygiene = G.hygiene_instances(len(shapes) + len(beyond), tier)
+    instances += hygiene
+    by_sid = {s.sid: s for s in shapes + beyond + [s for s, _ in hygiene]}
+    if len(by_sid) != len(shapes) + len(beyond) + len(hygiene):
+        raise V.Machinery("shape numbers are not unique")
     nparts = 4 if tier == "thorough" else 2
     jobs = 4
     root = os.path.join(workdir, "c20ws")
@@ -165,8 +200,7 @@ def extra(ctx):
     def confirm(sid, t):
         """Re-check one instance in a fresh single-instance crate: returns (compiles, G, E, first error)."""
         r2 = os.path.join(workdir, f"c20one_{sid}_{t}")
-        s = by_sid[sid]
-        s1 = G.Shape(s.caps, s.nargs, s.ret, s.tc, s.sid)
+        s1 = by_sid[sid].with_sid(sid)
         G.write_workspace(r2, repo, [(s1, t)], 1, seed)
         ok, errs = G.cargo_build(r2, jobs)
         if not ok:
@@ -272,6 +306,10 @@ def extra(ctx):
             key = f"caps={len(s.caps)}"
             hist[key] = hist.get(key, 0) + 1
             hist[f"body={G.TEMPLATE_NAMES[t]}"] = hist.get(f"body={G.TEMPLATE_NAMES[t]}", 0) + 1
+            for flag, on in (("hygiene:name-clash", s.hyg and s.nm != G.DEFAULT_NAME), ("hygiene:nested", s.nest is not None), ("hygiene:two-live", s.live2 is not None),
+                             ("hygiene:hostile-scope", s.env is not None)):
+                if on:
+                    hist[flag] = hist.get(flag, 0) + 1
             if len(s.caps) >= 1:
                 nontrivial += 1
             if d["G"] != d["E"]:
@@ -299,7 +337,8 @@ def extra(ctx):
     sem_compared = 0
     sem_mismatch = []
     if ok and live:
-        sem = [(s, t) for s, t in live if t == 0 and (s.sid, t) in res and not res[(s.sid, t)].get("G", "").startswith(("crash(", "panic"))]
+        # (not the hygiene instances: their body has a prologue and extra calls the Lean copy of the body does not have)
+        sem = [(s, t) for s, t in live if t == 0 and not s.hyg and (s.sid, t) in res and not res[(s.sid, t)].get("G", "").startswith(("crash(", "panic"))]
         rl = []
         for s, t in sem:
             ins = G.call_inputs(0, seed, s)
@@ -324,6 +363,8 @@ def extra(ctx):
     # ---- the real expansion's wiring against the Lean model ---------------------------------------------------------
     exp_compared = 0
     exp_mismatch = []
+    extra_items = []
+    name_lines = []
     texp = time.time()
     if ok and live:
         with ThreadPoolExecutor(max_workers=3) as ex:
@@ -335,20 +376,29 @@ def extra(ctx):
                 continue
             blocks = G.split_expanded(text)
             for s, t in live[p::nparts]:
+                if s.nest is not None or s.live2 is not None or s.env is not None:
+                    continue            # two expansions / other items in one function: the reader handles one (the wiring is that of the plain shape)
                 w, problem = G.wiring_of_expansion(blocks, s.sid, t)
                 want = _wiring_part(model[(s.sid, t)][0])
                 if problem:
                     exp_mismatch.append((s.sid, t, problem, want))
                     continue
                 pat, rec_tails, rec_lens, _inner = w
+                locs, uses = G.value_names(s, t)
+                name_lines.append(((s.sid, t), f"names {_inner} {s.descriptor(t)} locals={','.join(locs)} uses={','.join(uses)}"))
                 exp_compared += 1
                 ncap = len(s.caps)
-                if len(rec_tails) != 1 or any(n != s.nargs + ncap for n in rec_lens) or len(rec_lens) != 3:
+                if len(rec_tails) != 1 or any(n != s.nargs + ncap for n in rec_lens) or len(rec_lens) != G.rec_call_sites(s, t):
                     exp_mismatch.append((s.sid, t, f"recursive calls: tails {rec_tails}, argument counts {rec_lens}", want))
                     continue
                 got = pat % rec_tails[0]
                 if got != want:
                     exp_mismatch.append((s.sid, t, got, want))
+                    continue
+                # what the expansion introduces into the user's block: exactly one item, the hidden fn (Model: `emit`)
+                items = G.expansion_items(blocks, s.sid, t)
+                if not s.hyg and items != [("fn", _inner)]:
+                    extra_items.append((s.sid, t, items))
         # self-test of the expansion reader: a textually mis-wired copy of a real expansion must be reported as such
         st_done = False
         for p, (rc, text, err) in enumerate(outs):
@@ -356,7 +406,7 @@ def extra(ctx):
                 continue
             blocks = G.split_expanded(text)
             for s, t in live[p::nparts]:
-                if list(s.caps).count(True) >= 2:
+                if list(s.caps).count(True) >= 2 and s.nest is None and s.live2 is None and s.env is None:
                     blk = blocks.get(("g", s.sid, t), "")
                     m1, m2 = [f"&mut c{i}" for i in reversed(s.muts())][:2]
                     w0, _ = G.wiring_of_expansion({("g", s.sid, t): blk}, s.sid, t)
@@ -379,6 +429,32 @@ def extra(ctx):
                          "what": f"wiring of the real expansion differs from the Lean model of the token munchers on {len(exp_mismatch)} of "
                                  f"{exp_compared} instances (Model/Lambda.lean no longer describes rlib/lambda/src/lib.rs)",
                          "detail": [{"case": case_of(sid, t), "expansion": got, "model": want} for sid, t, got, want in exp_mismatch[:5]]})
+    # ---- name resolution: the Lean model (resolveG/resolveCallG vs resolveE) with the hidden fn's REAL name ------------------------
+    name_clash = []
+    if name_lines:
+        for ((sid, t), line), ans in zip(name_lines, _driver([l for _, l in name_lines])):
+            pm = V.parse_model(ans)
+            if pm is None or pm[2] == "any":
+                raise V.Machinery(f"drv_lambda: bad answer (or shape out of domain) on `{line}`: {ans[:400]}")
+            if pm[1] != pm[2]:
+                name_clash.append((sid, t, line.split()[1], pm[1], pm[2]))
+    cov["name_resolution_lines"] = len(name_lines)
+    cov["name_resolution_clashes"] = len(name_clash)
+    if name_clash:
+        name_clash.sort(key=lambda x: (len(by_sid[x[0]].caps), by_sid[x[0]].nargs, x[0], x[1]))
+        findings.append({"class": "broken", "kind": "correspondence",
+                         "what": f"name resolution: in {len(name_clash)} of {len(name_lines)} instances the inner fn of the real expansion has a name the program "
+                                 "itself uses as a value; the Lean model (Props/C20 names_resolve_as_written / call_resolves need the hidden name to be "
+                                 "distinct from them) predicts that the name is captured",
+                         "detail": [{"case": case_of(sid, t), "hidden_fn_in_real_expansion": hid, "generated": g, "explicit": e}
+                                    for sid, t, hid, g, e in name_clash[:5]]})
+    cov["expansions_with_unexpected_items"] = len(extra_items)
+    if extra_items:
+        extra_items.sort(key=lambda x: (len(by_sid[x[0]].caps), by_sid[x[0]].nargs, x[0], x[1]))
+        findings.append({"class": "broken", "kind": "correspondence",
+                         "what": f"the real expansion of {len(extra_items)} plain instances declares items other than the one hidden fn the Lean model's "
+                                 "`emit` describes (an item with a fixed name inside the user's block can capture a like-named name of the user's program)",
+                         "detail": [{"case": case_of(sid, t), "items": [" ".join(x for x in it if x) for it in items]} for sid, t, items in extra_items[:5]]})
     if exp_compared and len(samples) < 8:
         s, t = live[0] if len(live) < 50 else live[49]
         samples.append({"case": case_of(s.sid, t), "impl": "expansion wiring = model wiring", "model": model[(s.sid, t)][1][:300]})
@@ -388,6 +464,7 @@ def extra(ctx):
     cov["extra_samples"] = samples
     cov["shapes"] = len(shapes)
     cov["beyond_bound_shapes" if tier == "thorough" else "quick_wide_shapes_3_4_captures"] = len(beyond)
+    cov["hygiene_instances"] = len(hygiene)
     cov["instances"] = len(instances)
     cov["generator_histogram_extra"] = hist
     cov["extra_s"] = round(time.time() - t0, 2)
